@@ -40,12 +40,13 @@ def cases(tier, seed):
     w = [WEIGHTS[k] for k in kinds]
     out = []
     for n in gen.corpus():
-        for rep in range(30 if len(n["names"]) <= 7 else 6):
-            out.append({"net": n, "cls": n["cls"], "mode": "history", "history": [["succ", rng.randrange(256)] for _ in range(rng.randint(8, 24))], "rs": rng.randrange(1 << 30)})
+        for rep in range(60 if len(n["names"]) <= 7 else 6):
+            # node-by-node expansion: every call expands one of the current stubs, in a random order
+            out.append({"net": n, "cls": n["cls"], "mode": "history", "history": [["succstub", rng.randrange(1 << 16)] for _ in range(rng.randint(6, 30))], "rs": rng.randrange(1 << 30)})
     for n in nets:
         if rng.random() < 0.4:
             # node-by-node expansion in a random order (depth has to be raised through later, longer paths)
-            h = [["succ", rng.randrange(256)] for _ in range(rng.randint(6, 24))]
+            h = [[rng.choice(["succ", "succstub", "succstub"]), rng.randrange(1 << 16)] for _ in range(rng.randint(6, 24))]
         else:
             h = history.gen_history(rng, kinds, rng.randint(3, 10), w)
         out.append({"net": n, "cls": n["cls"], "mode": "history", "history": h, "rs": rng.randrange(1 << 30)})
